@@ -17,9 +17,11 @@ Print Assumptions c01_exactly_once.
 
 (** every wrapped iterator, fused or not, owning its elements or not: no position is moved out to two
     callers.  (The checker [chk_C01_nodup] itself accounts for the elements of a chunk that the caller left
-    in it by the INDEX of the chunk and for the others by their VALUE; indices and values differ once a
-    wrapped iterator that is not fused has answered None prematurely, and the checker then objects to runs
-    on which nothing is delivered twice: [Examples.gap_breaks_the_mixed_accounting].  The no-loss half is
+    in it by the INDEX of the chunk and for the others by their VALUE; indices and values differed once a
+    wrapped iterator that is not fused had answered None prematurely, as long as a waiting thread could still
+    be served after that answer; since the waiting loop looks at the completed flag once more, nothing is
+    delivered after the first None and the checker itself holds for every wrapped iterator:
+    [c01_no_duplicate_checker_any_iterator] below, [Examples.gap_mixed_accounting_repaired].  The no-loss half is
     false for such an iterator: the end is reported while elements remain, [Examples.gap_hypotheses_hold].) *)
 Theorem c01_no_duplicate_any_iterator : forall e, iter_env e -> forall progs, wf_progs progs -> forall sched,
   nowrap (c_labels (exec e (init progs) sched)) ->
@@ -57,3 +59,52 @@ Theorem c01_exactly_once_until_first_gap : forall e, iter_env e -> forall progs,
   check_prop 1 e (c_trace (exec e (init progs) sched)) (c_labels (exec e (init progs) sched)) = true.
 Proof. exact iter_C01_until_gap. Qed.
 Print Assumptions c01_exactly_once_until_first_gap.
+
+(** ** after the repair of the waiting loop (a thread that finds its ticket at the yielded counter looks at
+    the completed flag once more before it uses the wrapped iterator): nothing is delivered after the first
+    None of the wrapped iterator, premature or not ([C07.c07_no_call_after_none]) *)
+From OCI.proofs Require Import AfterNone.
+
+(** every wrapped iterator, fused or not: the no-duplicate half of the checker of C01 itself *)
+Theorem c01_no_duplicate_checker_any_iterator : forall e, iter_env e -> forall progs, wf_progs progs -> forall sched,
+  nowrap (c_labels (exec e (init progs) sched)) ->
+  chk_C01_nodup e (c_trace (exec e (init progs) sched)) = true.
+Proof. exact iter_nodup_any. Qed.
+Print Assumptions c01_no_duplicate_checker_any_iterator.
+
+(** a wrapped iterator whose first premature None is the answer to call number [g] ([first_gap e g]: no
+    earlier call is such an answer): exactly-once delivery in full on EVERY run, with the length of the
+    source replaced by the number of elements yielded before that call ([cut e g]: [e] with
+    [e_len := min (e_len e) g], fused) *)
+Theorem c01_exactly_once_any_iterator : forall e, iter_env e -> forall g, first_gap e g -> forall progs, wf_progs progs -> forall sched,
+  nowrap (c_labels (exec e (init progs) sched)) ->
+  check_prop 1 (cut e g) (c_trace (exec e (init progs) sched)) (c_labels (exec e (init progs) sched)) = true.
+Proof. exact iter_C01_after_gap. Qed.
+Print Assumptions c01_exactly_once_any_iterator.
+
+(** for ANY wrapped iterator the run is the run of a fused one: an environment [e'] that differs from [e] in
+    [e_gap] and in the number of elements of the source only (it is not larger), whose run goes through the
+    same states with the same label stream and the same history up to the numbers the length queries answer
+    ([sim]; with an exact size hint those report the length the iterator announced), and on which the
+    checkers of C01, C02, C03, C04, C06 and C12 hold *)
+Theorem c01_any_iterator_runs_as_fused : forall e, iter_env e -> forall progs, wf_progs progs -> forall sched,
+  nowrap (c_labels (exec e (init progs) sched)) ->
+  exists e', iter_env e' /\ fused e' /\ same_but_len e e' /\
+    sim (exec e (init progs) sched) (exec e' (init progs) sched) /\
+    let tr := c_trace (exec e (init progs) sched) in
+    let ls := c_labels (exec e (init progs) sched) in
+    check_prop 1 e' tr ls = true /\ check_prop 2 e' tr ls = true /\ check_prop 3 e' tr ls = true /\
+    check_prop 4 e' tr ls = true /\ check_prop 6 e' tr ls = true /\ check_prop 12 e' tr ls = true.
+Proof. exact iter_runs_as_fused. Qed.
+Print Assumptions c01_any_iterator_runs_as_fused.
+
+(** a size hint that is not exact (inexact or unbounded): the run of a wrapped iterator whose first premature
+    None is the answer to call number [g] IS the run of the fused iterator [cut e g], configuration for
+    configuration (shared state, threads, history and label stream).  (With an exact size hint the length
+    queries report the length the iterator announced, which [cut] changes: see [sim] above.) *)
+Theorem c01_any_iterator_same_run : forall e, iter_env e -> e_hint e <> HExact -> forall g, first_gap e g ->
+  forall progs, wf_progs progs -> forall sched,
+  nowrap (c_labels (exec e (init progs) sched)) ->
+  exec (cut e g) (init progs) sched = exec e (init progs) sched.
+Proof. exact iter_cut_same_run. Qed.
+Print Assumptions c01_any_iterator_same_run.
